@@ -482,6 +482,49 @@ pub fn c02_big_streams() -> Vec<(SvcCfg, Vec<u8>)> {
         s.extend_from_slice(&payload);
         v.push((c, s));
     }
+    v.extend(c02_bulk_upgraded_streams(&mut Rng::new(7), 4));
+    v
+}
+
+/// upgraded connections that carry tens of kilobytes for the two handler shapes that *return* in the
+/// middle of the stream: V3 (returns at the end of every batch) and V4 (length-prefixed frames; takes
+/// what is buffered for what is available and hands a partial frame back)
+pub fn c02_bulk_upgraded_streams(rng: &mut Rng, n: usize) -> Vec<(SvcCfg, Vec<u8>)> {
+    let cfg = SvcCfg::basic();
+    let mut v = Vec::new();
+    for k in 0..n {
+        let mut c = cfg.clone();
+        let total = rng.range(9_000, 60_000) as usize;
+        let mut s = frame(&alphabet::upgrade_request(&c, false, "up"));
+        if k % 2 == 0 {
+            c.upgrade_mode = 4;
+            let fixed = if rng.chance(1, 2) { Some(rng.range(1, 255) as usize) } else { None };
+            let mut i = 0u32;
+            let mut payload = Vec::new();
+            while payload.len() < total {
+                let len = fixed.unwrap_or_else(|| rng.range(0, 255) as usize);
+                payload.push(len as u8);
+                for j in 0..len {
+                    payload.push(b'a' + ((i as usize + j) % 26) as u8);
+                }
+                i += 1;
+            }
+            s.extend_from_slice(&payload);
+        } else {
+            c.upgrade_mode = 3;
+            let mut i = 0u32;
+            let mut payload = Vec::new();
+            while payload.len() < total {
+                for _ in 0..rng.range(1, 60) {
+                    payload.extend_from_slice(format!("LINE-{:06}-{}\n", i, "x".repeat(rng.range(0, 120) as usize)).as_bytes());
+                    i += 1;
+                }
+                payload.extend_from_slice(b"End\n");
+            }
+            s.extend_from_slice(&payload);
+        }
+        v.push((c, s));
+    }
     v
 }
 
